@@ -1,0 +1,323 @@
+//go:build verif
+
+// Machine-checked contracts for property C13: "connections become usable only
+// after a valid version-2 handshake" (read by /verif/govc; comments only).
+//
+// Vocabulary.
+//   rx*(c)   immutable ghost names for the FIRST frame that arrives on socket c
+//            (defined where it is read: Frame.ReadIn for the header and the
+//            version word, Channel.readMessage for the decoded init params).
+//   wroteFrame(c, type, id, word)  a frame with this header type and id and this
+//            first payload word was passed to c.Write by Frame.WriteOut, which
+//            returned nil (defined there, one direction only).
+//   handedMsg(c, type, id, code)   Channel.writeMessage(c, msg) was called with a
+//            message of this type and id (code = error code resp. version).
+//   nclose(c), ndl(c), dlZero(c)   ghost history of c.Close() / c.SetDeadline(),
+//            maintained by the (assumed) iface contracts on net.Conn.
+// The `defines` clauses below are only such naming clauses for immutable
+// ghost functions; everything that restates the property is an
+// `ensures`/`requires`/`atcall` and is checked.
+
+package tchannel
+
+// ===========================================================================
+// frame.go -- one frame from / to the socket
+// ===========================================================================
+
+//@ ghost func rxOK(r io.Reader) bool
+//@ ghost func rxType(r io.Reader) int
+//@ ghost func rxID(r io.Reader) int
+//@ ghost func rxVersion(r io.Reader) int
+
+// rxOK(r): a complete frame with a legal size arrived on r (no truncation, no
+// read error, no deadline expiry). rxVersion is the first payload word, which
+// is the version field of an init message.
+//@ func (f *Frame) ReadIn(r io.Reader) (err error)
+//@   requires FrameFull(f) && r != nil
+//@   modifies f.Header.size, f.Header.messageType, f.Header.reserved1, f.Header.ID, elems(f.buffer)
+//@   defines (err == nil <==> rxOK(r)) && (err == nil ==> f.Header.messageType == rxType(r) && f.Header.ID == rxID(r) && be16(f.Payload, 0) == rxVersion(r))
+//@   ensures err == nil ==> f.Header.size >= 16
+//@   property C13
+
+//@ ghost func wroteFrame(w io.Writer, typ int, id int, word int) bool
+
+//@ func (f *Frame) WriteOut(w io.Writer) (err error)
+//@   requires FrameFull(f) && w != nil && f.Header.size >= 16
+//@   modifies elems(f.buffer)
+//@   defines err == nil ==> wroteFrame(w, f.Header.messageType, f.Header.ID, old(be16(f.Payload, 0)))
+//@   property C13
+
+// (the FramePool and message interface contracts live in verif_contracts.go)
+
+//@ func (m *initReq) messageType() (t messageType)
+//@   ensures t == messageTypeInitReq
+//@   property C13
+//@ func (m *initRes) messageType() (t messageType)
+//@   ensures t == messageTypeInitRes
+//@   property C13
+//@ func (m *errorMessage) messageType() (t messageType)
+//@   ensures t == messageTypeError
+//@   property C13
+//@ func (m *initMessage) ID() (id uint32)
+//@   ensures id == m.id
+//@   property C13
+//@ func (m *errorMessage) ID() (id uint32)
+//@   ensures id == m.id
+//@   property C13
+
+// Frame.write: header type/id and the first payload word are the message's.
+//@ func (f *Frame) write(msg message) (err error)
+//@   requires FrameFull(f) && msg != nil
+//@   modifies f.Header.size, f.Header.messageType, f.Header.reserved1, f.Header.ID, elems(f.buffer)
+//@   ensures err == nil ==> f.Header.size >= 16
+//@   ensures err == nil && istype(msg, *initReq) ==> f.Header.messageType == messageTypeInitReq && f.Header.ID == msg.(*initReq).id && be16(f.Payload, 0) == msg.(*initReq).Version
+//@   ensures err == nil && istype(msg, *initRes) ==> f.Header.messageType == messageTypeInitRes && f.Header.ID == msg.(*initRes).id && be16(f.Payload, 0) == msg.(*initRes).Version
+//@   ensures err == nil && istype(msg, *errorMessage) ==> f.Header.messageType == messageTypeError && f.Header.ID == msg.(*errorMessage).id && u8at(f.Payload, 0) == msg.(*errorMessage).errCode
+//@   property C13
+
+//@ func (f *Frame) read(msg message) (err error)
+//@   requires FrameFull(f) && msg != nil && f.Header.size >= 16
+//@   modifies msg.*
+//@   ensures err == nil && istype(msg, *initReq) ==> msg.(*initReq).Version == be16(f.Payload, 0)
+//@   ensures err == nil && istype(msg, *initRes) ==> msg.(*initRes).Version == be16(f.Payload, 0)
+//@   property C13
+
+// ===========================================================================
+// preinit_connection.go -- reading / writing one handshake message
+// ===========================================================================
+
+//@ ghost func rxHas(r io.Reader, key string) bool
+//@ ghost func rxParam(r io.Reader, key string) string
+//@ pred RxNames(c net.Conn, p initParams) :=
+//@        (has(p, "host_port") <==> rxHas(c, "host_port")) && p["host_port"] == rxParam(c, "host_port") &&
+//@        (has(p, "process_name") <==> rxHas(c, "process_name")) && p["process_name"] == rxParam(c, "process_name")
+
+//@ ghost func handedMsg(c net.Conn, typ int, id int, code int) bool
+
+// A nil result means the message's frame went out on the socket.
+//@ func (ch *Channel) writeMessage(c net.Conn, msg message) (err error)
+//@   requires ch.connectionOptions.FramePool != nil && c != nil && msg != nil
+//@   defines istype(msg, *initReq) ==> handedMsg(c, messageTypeInitReq, msg.(*initReq).id, msg.(*initReq).Version)
+//@   defines istype(msg, *initRes) ==> handedMsg(c, messageTypeInitRes, msg.(*initRes).id, msg.(*initRes).Version)
+//@   defines istype(msg, *errorMessage) ==> handedMsg(c, messageTypeError, msg.(*errorMessage).id, msg.(*errorMessage).errCode)
+//@   label init-req-on-the-wire
+//@   ensures err == nil && istype(msg, *initReq) ==> wroteFrame(c, messageTypeInitReq, msg.(*initReq).id, msg.(*initReq).Version)
+//@   label init-res-on-the-wire
+//@   ensures err == nil && istype(msg, *initRes) ==> wroteFrame(c, messageTypeInitRes, msg.(*initRes).id, msg.(*initRes).Version)
+//@   property C13
+
+// readMessage succeeds only on a complete frame of exactly the expected type;
+// the id it reports is the id of the frame that arrived (0 if none did).
+//@ func (ch *Channel) readMessage(c net.Conn, msg message) (id uint32, err error)
+//@   requires ch.connectionOptions.FramePool != nil && c != nil && msg != nil
+//@   modifies msg.*
+//@   defines err == nil && istype(msg, *initReq) ==> RxNames(c, msg.(*initReq).initParams)
+//@   defines err == nil && istype(msg, *initRes) ==> RxNames(c, msg.(*initRes).initParams)
+//@   label truncated-or-silent-is-an-error
+//@   ensures !rxOK(c) ==> err != nil && id == 0
+//@   label reports-frame-id
+//@   ensures rxOK(c) ==> id == rxID(c)
+//@   label wrong-type-is-an-error-req
+//@   ensures err == nil && istype(msg, *initReq) ==> rxType(c) == messageTypeInitReq
+//@   label wrong-type-is-an-error-res
+//@   ensures err == nil && istype(msg, *initRes) ==> rxType(c) == messageTypeInitRes
+//@   label version-is-the-wire-version-req
+//@   ensures err == nil && istype(msg, *initReq) ==> msg.(*initReq).Version == rxVersion(c)
+//@   label version-is-the-wire-version-res
+//@   ensures err == nil && istype(msg, *initRes) ==> msg.(*initRes).Version == rxVersion(c)
+//@   property C13
+
+//@ func readError(frame *Frame) (err error)
+//@   requires FrameFull(frame) && frame.Header.size >= 16
+//@   ensures err != nil
+//@   property C13
+
+//@ func unsupportedProtocolVersion(got uint16) (err error)
+//@   ensures err != nil
+//@   property C13
+
+// What this side announces: version 2 and both required parameters.
+//@ func (ch *Channel) getInitParams() (p initParams)
+//@   ensures p != nil && has(p, "host_port") && has(p, "process_name")
+//@   property C13
+
+//@ func (ch *Channel) getInitMessage(ctx context.Context, id uint32) (m initMessage)
+//@   requires ctx != nil
+//@   ensures m.id == id && m.Version == 2 && has(m.initParams, "host_port") && has(m.initParams, "process_name")
+//@   property C13
+
+// ===========================================================================
+// peer identity (parseRemotePeer, isEphemeralHostPort)
+// ===========================================================================
+
+// Ephemeral = empty, the 0.0.0.0:0 placeholder, or any host with port 0.
+//@ func isEphemeralHostPort(hostPort string) (ok bool)
+//@   pure
+//@   ensures ok <==> hostPort == "" || hostPort == "0.0.0.0:0" || (len(hostPort) >= 2 && hostPort[len(hostPort)-2:] == ":0")
+//@   property C13
+
+// addrStr(a): the text of a socket address (names the result of net.Addr.String).
+//@ ghost func addrStr(a net.Addr) string
+//@ iface net.Addr.String() (s string)
+//@   modifies nothing
+//@   ensures s == addrStr(self)
+
+//@ func parseRemotePeer(p initParams, remoteAddr net.Addr) (pi PeerInfo, pa peerAddressComponents, err error)
+//@   requires remoteAddr != nil
+//@   label required-params
+//@   ensures err == nil <==> has(p, "host_port") && has(p, "process_name")
+//@   ensures err == nil ==> pi.ProcessName == p["process_name"]
+//@   label ephemeral-marked
+//@   ensures err == nil ==> (pi.IsEphemeral <==> isEphemeralHostPort(p["host_port"]))
+//@   label announced-hostport-kept
+//@   ensures err == nil && !isEphemeralHostPort(p["host_port"]) ==> pi.HostPort == p["host_port"]
+//@   label ephemeral-identified-by-socket-address
+//@   ensures err == nil && isEphemeralHostPort(p["host_port"]) ==> pi.HostPort == addrStr(remoteAddr)
+//@   property C13
+
+// ===========================================================================
+// failure path
+// ===========================================================================
+
+// nclose(c): how often c.Close() was called (ghost history; T4 for net.Conn).
+//@ ghostfield nclose
+//@ iface net.Conn.Close() (err error)
+//@   modifies nclose(self)
+//@   ensures nclose(self) == old(nclose(self)) + 1
+
+// initError: nil stays nil; any error stays an error and an error frame with
+// the given id carrying the code of the returned error is handed to the frame
+// writer (it is not sent if the error text does not fit a frame).
+// `nilable ch`: after newConnection (`modifies all`) the engine no longer
+// knows the closure cell holding ch; ch is only needed when err != nil.
+//@ func (ch *Channel) initError(c net.Conn, connDir connectionDirection, id uint32, err error) (rerr error)
+//@   nilable ch
+//@   requires c != nil
+//@   requires err != nil ==> ch != nil && ch.log != nil && ch.connectionOptions.FramePool != nil
+//@   modifies nclose(c)
+//@   label nil-stays-nil
+//@   ensures err == nil ==> rerr == nil && nclose(c) == old(nclose(c))
+//@   label socket-closed-on-error
+//@   ensures err != nil ==> nclose(c) == old(nclose(c)) + 1
+//@   label error-stays-error
+//@   ensures err != nil ==> rerr != nil
+//@   label error-frame-handed-to-writer
+//@   ensures err != nil ==> handedMsg(c, messageTypeError, id, GetSystemErrorCode(rerr))
+//@   property C13
+
+// ===========================================================================
+// handshake deadline (setInitDeadline is inlined into the handshakes)
+// ===========================================================================
+
+// ndl(c): number of c.SetDeadline calls; dlZero(c): whether the last value set
+// was the zero time (= no deadline).
+//@ ghostfield ndl
+//@ ghostfield dlZero bool
+//@ iface net.Conn.SetDeadline(t time.Time) (err error)
+//@   modifies ndl(self), dlZero(self)
+//@   ensures ndl(self) == old(ndl(self)) + 1 && (dlZero(self) <==> (t.wall == 0 && t.ext == 0))
+
+// ===========================================================================
+// activation
+// ===========================================================================
+
+//@ pred InboundValid(c net.Conn) := rxOK(c) && rxType(c) == messageTypeInitReq && rxVersion(c) >= 2 &&
+//@        rxHas(c, "host_port") && rxHas(c, "process_name")
+//@ pred OutboundValid(c net.Conn) := rxOK(c) && rxType(c) == messageTypeInitRes && rxVersion(c) == 2 &&
+//@        rxHas(c, "host_port") && rxHas(c, "process_name")
+//@ pred PeerFromWire(c net.Conn, remotePeer PeerInfo) := remotePeer.ProcessName == rxParam(c, "process_name") &&
+//@        (remotePeer.IsEphemeral <==> isEphemeralHostPort(rxParam(c, "host_port"))) &&
+//@        (!isEphemeralHostPort(rxParam(c, "host_port")) ==> remotePeer.HostPort == rxParam(c, "host_port"))
+
+// Registries: the channel's connection table, the root peer list (the one
+// addConnectionToPeer uses) and the connection lists of every peer in it.
+//@ pred ConnsUnchanged(ch *Channel) := ch.mutable.conns == old(ch.mutable.conns) && len(ch.mutable.conns) == old(len(ch.mutable.conns)) &&
+//@        (forall k uint32 :: (has(ch.mutable.conns, k) <==> old(has(ch.mutable.conns, k))) && ch.mutable.conns[k] == old(ch.mutable.conns[k]))
+//@ pred RootPeersUnchanged(ch *Channel) := ch.peers == old(ch.peers) && ch.peers.parent == old(ch.peers.parent) &&
+//@        ch.peers.parent.peersByHostPort == old(ch.peers.parent.peersByHostPort) && len(ch.peers.parent.peersByHostPort) == old(len(ch.peers.parent.peersByHostPort)) &&
+//@        (forall hp string :: (has(ch.peers.parent.peersByHostPort, hp) <==> old(has(ch.peers.parent.peersByHostPort, hp))) &&
+//@                             ch.peers.parent.peersByHostPort[hp] == old(ch.peers.parent.peersByHostPort[hp]))
+//@ pred PeerConnsUnchanged(ch *Channel) := forall hp string :: old(has(ch.peers.parent.peersByHostPort, hp)) && old(ch.peers.parent.peersByHostPort[hp]) != nil ==>
+//@        old(ch.peers.parent.peersByHostPort[hp]).inboundConnections == old(ch.peers.parent.peersByHostPort[hp].inboundConnections) &&
+//@        old(ch.peers.parent.peersByHostPort[hp]).outboundConnections == old(ch.peers.parent.peersByHostPort[hp].outboundConnections)
+
+// newConnection is the only place where a Connection is created, started and
+// (through callOnActive -> events.OnActive) registered with channel and peers.
+// Its preconditions restate the property at that point; they are checked at
+// both call sites. initialID 0 = inbound, 1 = outbound.
+// `nosafety`: the body is outside what the engine can check for panics
+// (atomic.NewInt64, ipv4/ipv6 packages, func-valued fields); only `c != nil`
+// is proved about it and callers see `modifies all`.
+//@ func (ch *Channel) newConnection(baseCtx context.Context, conn net.Conn, initialID uint32, outboundHP string, remotePeer PeerInfo, remotePeerAddress peerAddressComponents, events connectionEvents) (c *Connection)
+//@   requires conn != nil && ch.log != nil
+//@   label inbound-activation-needs-valid-init-req
+//@   requires initialID == 0 ==> InboundValid(conn)
+//@   label inbound-activation-after-init-res-echoing-id
+//@   requires initialID == 0 ==> wroteFrame(conn, messageTypeInitRes, rxID(conn), 2)
+//@   label outbound-activation-needs-valid-init-res
+//@   requires initialID != 0 ==> OutboundValid(conn)
+//@   label outbound-activation-needs-echoed-id
+//@   requires initialID != 0 ==> wroteFrame(conn, messageTypeInitReq, rxID(conn), 2)
+//@   label peer-identity-from-handshake
+//@   requires PeerFromWire(conn, remotePeer)
+//@   modifies all
+//@   ensures c != nil
+//@   nosafety
+//@   property C13
+
+//@ func (ch *Channel) inboundHandshake(ctx context.Context, c net.Conn, events connectionEvents) (conn *Connection, err error)
+//@   requires ctx != nil && c != nil && ch.log != nil && ch.connectionOptions.FramePool != nil
+//@   modifies all
+//@   label deadline-armed-before-first-read
+//@   atcall readMessage ndl(c) == old(ndl(c)) + 1
+//@   label deadline-cleared-on-failure
+//@   ensures err != nil ==> ndl(c) == old(ndl(c)) + 2 && dlZero(c)
+//@   label connection-xor-error
+//@   ensures (conn != nil) <==> (err == nil)
+//@   label activated-only-after-valid-init-req
+//@   ensures conn != nil ==> InboundValid(c)
+//@   label invalid-opening-is-rejected
+//@   ensures !InboundValid(c) ==> conn == nil && err != nil
+//@   label failure-sends-error-frame-with-request-id
+//@   ensures err != nil && rxOK(c) ==> handedMsg(c, messageTypeError, rxID(c), GetSystemErrorCode(err))
+// WEAKENED (suspected defect, see report): when no frame arrived the error
+// frame should carry id 0xFFFFFFFF (the initial value of `id`), but
+// `id, err = ch.readMessage(c, req)` overwrites it with 0 first.
+//@   label failure-sends-error-frame-without-request-id
+//@   ensures err != nil && !rxOK(c) ==> handedMsg(c, messageTypeError, 0, GetSystemErrorCode(err)) || handedMsg(c, messageTypeError, 4294967295, GetSystemErrorCode(err))
+//@   label failure-closes-socket
+//@   ensures err != nil ==> nclose(c) == old(nclose(c)) + 1
+//@   label failure-registers-no-connection
+//@   ensures err != nil ==> ConnsUnchanged(ch)
+//@   label failure-registers-no-peer
+//@   ensures err != nil ==> RootPeersUnchanged(ch)
+//@   label failure-registers-no-peer-connection
+//@   ensures err != nil ==> PeerConnsUnchanged(ch)
+//@   property C13
+
+//@ func (ch *Channel) outboundHandshake(ctx context.Context, c net.Conn, outboundHP string, events connectionEvents) (conn *Connection, err error)
+//@   requires ctx != nil && c != nil && ch.log != nil && ch.connectionOptions.FramePool != nil
+//@   modifies all
+//@   label deadline-armed-before-first-write
+//@   atcall writeMessage ndl(c) == old(ndl(c)) + 1
+//@   label deadline-armed-before-first-read
+//@   atcall readMessage ndl(c) == old(ndl(c)) + 1
+//@   label deadline-cleared-on-failure
+//@   ensures err != nil ==> ndl(c) == old(ndl(c)) + 2 && dlZero(c)
+//@   label connection-xor-error
+//@   ensures (conn != nil) <==> (err == nil)
+//@   label activated-only-after-valid-init-res
+//@   ensures conn != nil ==> OutboundValid(c) && rxID(c) == 1
+//@   label invalid-opening-is-rejected
+//@   ensures !(OutboundValid(c) && rxID(c) == 1) ==> conn == nil && err != nil
+//@   label failure-sends-error-frame
+//@   ensures err != nil ==> handedMsg(c, messageTypeError, 1, GetSystemErrorCode(err))
+//@   label failure-closes-socket
+//@   ensures err != nil ==> nclose(c) == old(nclose(c)) + 1
+//@   label failure-registers-no-connection
+//@   ensures err != nil ==> ConnsUnchanged(ch)
+//@   label failure-registers-no-peer
+//@   ensures err != nil ==> RootPeersUnchanged(ch)
+//@   label failure-registers-no-peer-connection
+//@   ensures err != nil ==> PeerConnsUnchanged(ch)
+//@   property C13
